@@ -1509,6 +1509,10 @@ func (c *Ctx) script(asserts []*Term, gets []*Term, logic string, produceModels 
 				ys, xs, one, py, px, ks, xs, ys, one, px, py, ks)
 			// congruence, spelled out for the bit-blaster: equal factors, equal products
 			fmt.Fprintf(&b, "(assert (=> (= %s %s) (= %s %s)))\n", xs, ys, px, py)
+			// and the converse of the successor rule when neither product wraps: products one k apart
+			// have factors one apart
+			fmt.Fprintf(&b, "(assert (=> (and (bvule %s %s) (bvule %s %s)) (and (=> (= %s (bvadd %s %s)) (= %s (bvadd %s %s))) (=> (= %s (bvadd %s %s)) (= %s (bvadd %s %s))))))\n",
+				xs, bound, ys, bound, py, px, ks, ys, xs, one, px, py, ks, xs, ys, one)
 		}
 	}
 	emitted := map[int]bool{}
